@@ -16,7 +16,7 @@ CHECKS = {
              "generated settings (12 quick / 300 thorough per version); TLC judges each run (Trace_NetInfo)."
              " Children may carry reserved network addresses; after the round trip the child in the lowest slot leaves and the settings are read again (ReadMatchesStore)."
              " The NCP may start off-network but still holding link keys of an earlier network."
-             " Link-key entries may carry the trust-centre link key itself.",
+             " Link-key entries may carry the trust-centre link key itself. Two reads that overlap in time (the second lagging 0..15 commands behind the first) each report what a read on its own reports (OverlapReads).",
         design_ref="3/C14",
         note="Trusted: compat shim, simulated NCP store (ncp_netinfo.py) answering ~30 commands in every version's result shapes. From "
              "version 5 on only the well-known link key round-trips (stated limitation of bellows). One defect found and fixed (v14 "
